@@ -11,6 +11,7 @@ mod forge;
 mod matrix;
 mod mutate;
 mod parser_check;
+mod parser_resource;
 mod pihash;
 mod protocol;
 mod pubinput;
@@ -75,6 +76,7 @@ fn main() {
         "coeffs" => Some(coeffs::run(&args)),
         "pubinput" => Some(pubinput::run(&args)),
         "parser" => Some(parser_check::run(&args)),
+        "parserres" => Some(parser_resource::run(&args)),
         "protocol" => Some(protocol::run(&args)),
         "dynprofile" => Some(dynprofile::run(&args)),
         _ => vcomp::dispatch(&args),
